@@ -12,7 +12,8 @@ BOUNDS = {"quick": "inductive step: URLs from 6 skeletons (<= 2 free holes) x wa
                    "slots) and every modifier with a 1-code-point argument; lru key model: two-call histories of make_netloc, _encode_host, "
                    "split_netloc, from_parts, encode_url with symbolic arguments; kernel two-call histories of the 13 quoter/unquoter "
                    "instances with texts of <= 2 code points; unpickling next to a cached object",
-          "thorough": "all ordered pairs B;A; <= 3 free holes; kernel texts of <= 3 code points"}
+          "thorough": "all ordered pairs B;A for the authority and escape skeletons, every third pair for the others; 6 skeletons x all modifiers "
+                      "from the all-warm state and one or two other warm-ups; kernel two-call histories of <= 2 code points each plus escape skeletons"}
 ASSUMPTIONS = ["results depend on history only through URL._cache, the functools.lru_cache wrappers and the state of the quoter/unquoter instances: "
                "Inv = every cache entry equals what a cache-free twin computes; by induction on Inv the one-step check covers call sequences of any length",
                "functools.lru_cache is modelled as an association list keyed on the argument tuple with Python equality (so 1 == True collide, as in "
@@ -344,13 +345,13 @@ def families(tier):
                 continue
             if q and sn == "path" and m not in pmods:
                 continue
-            for b in ((-1, (mi + si) % nb)[:2 if sn == "auth" else 1] if q else [-1, 0, (mi + si) % nb, (mi + si + 4) % nb]):
+            for b in ((-1, (mi + si) % nb)[:2 if sn == "auth" else 1] if q else ([-1, 0, (mi + si) % nb] if sn in ("auth", "relative") else [-1, (mi + si) % nb])):
                 fams.append(Family("step/%s/modifier=%s/B=%d" % (sn, m, b), h_step, dict(skeleton=sk, route="ctor", b_index=b, a_slot=0, mod=m)))
     for w in ("make_netloc", "_encode_host", "split_netloc", "from_parts", "encode_url", "pre_encoded_url"):
         fams.append(Family("lru/%s" % w, h_lru, dict(which=w)))
     for name in C05.CONFIGS:
         kind, cfg = C05.CONFIGS[name]
-        for n in ((1, 2) if q else (1, 2, 3)):
+        for n in (1, 2):
             if q and n == 2 and kind == "_Quoter":
                 continue
             fams.append(Family("kernel-history/%s/n=%d" % (name, n), h_kernel_history, dict(name=name, n=n), backends=("py", "c")))
